@@ -73,3 +73,92 @@ Theorem C27_start_error_decides :
   f_acquire f = None -> f_start f = Some (e, l) -> fst (gen_attempt stmts f w) = Some e.
 Proof. exact @gen_attempt_start_error. Qed.
 Print Assumptions C27_start_error_decides.
+
+(* ------------------------------------------------------------------------------------------------ *)
+(** * The Database.* helpers (just_execute, execute_update, execute_insertone, execute_and_fetchone, select_and_fetchone,
+      check_call_procedure, execute_many over an argument array of ANY length)
+
+    [gen_helper_run c hist w] (DbTx/Inst.v) = the retry wrapper around ONE transaction that runs the plan
+    [C27.Gen.helper_plan c] REGENERATED from the helper's source.  [fault_site n f e]: the fault plan [f] of an attempt on
+    n statements makes error [e] happen at acquire, at START TRANSACTION, at ANY statement index i < n (statement-only,
+    deadlock-victim or lost-connection effect) or at COMMIT. *)
+
+(** The plan regenerated from the source: the single statement, resp. the WHOLE argument array, in one transaction. *)
+Theorem C27_helper_plan :
+  forall (W : Type) (c : helper_call W), C27.Gen.helper_plan c = helper_stmts c.
+Proof. exact @gen_helper_plan_spec. Qed.
+Print Assumptions C27_helper_plan.
+
+(** Every helper, every argument array, every fault history: retried iff transient, the log after every retried or failed
+    attempt is the initial one, after success it is initial ++ all rows, each exactly once, in order. *)
+Theorem C27_helper_retry_iff_transient_no_partial_writes :
+  forall (W : Type) (c : helper_call W) (hist : list faults) (w : @world W),
+  clean_pool w ->
+  let '(r, _, tr) := gen_helper_run c hist w in
+  trace_spec (committed w) (helper_stmts c) r tr /\ (length tr <= S (length hist))%nat.
+Proof. exact @gen_helper_trace. Qed.
+Print Assumptions C27_helper_retry_iff_transient_no_partial_writes.
+
+Theorem C27_helper_all_or_nothing :
+  forall (W : Type) (c : helper_call W) (hist : list faults) (w : @world W),
+  clean_pool w ->
+  let '(r, w', _) := gen_helper_run c hist w in
+  clean_pool w' /\
+  match r with None => committed w' = committed w ++ helper_stmts c | Some _ => committed w' = committed w end.
+Proof. exact @gen_helper_atomic. Qed.
+Print Assumptions C27_helper_all_or_nothing.
+
+(** Row-level reading of the same: whatever the faults and the retry schedule, every row value occurs in the final table
+    exactly once more than before (per occurrence in the array) when the call succeeded, exactly as often as before when
+    it failed — never twice, never a proper part of the array. *)
+Theorem C27_helper_rows_exactly_once :
+  forall (W : Type) (dec : forall a b : W, {a = b} + {a <> b}) (c : helper_call W) (hist : list faults) (w : @world W),
+  clean_pool w ->
+  let '(r, w', _) := gen_helper_run c hist w in
+  occurs_plus dec (committed w') (committed w) (helper_stmts c) (match r with None => 1%nat | Some _ => 0%nat end).
+Proof. exact @gen_helper_exactly_once. Qed.
+Print Assumptions C27_helper_rows_exactly_once.
+
+(** execute_many over an array of ANY length n, the first attempt hit ANYWHERE (acquire, START, any row index < n, COMMIT)
+    by error e, whatever happens afterwards ([rest]): nothing is committed by that attempt and the pool stays clean;
+    if e is not transient the call ends at once with e (one attempt, log = initial); if e is transient the call continues
+    exactly as a fresh call of the WHOLE array on the unchanged log (so rows before the failing one are not written twice). *)
+Theorem C27_execute_many_fault_anywhere :
+  forall (W : Type) (rows : list W) (f : faults) (rest : list faults) (w : @world W) (e : err),
+  clean_pool w -> fault_site (length rows) f e ->
+  exists w1, clean_pool w1 /\ committed w1 = committed w /\
+    gen_helper_run (HExecuteMany rows) (f :: rest) w =
+    if transient_spec e
+    then (let '(r2, w2, tr) := gen_helper_run (HExecuteMany rows) rest w1 in (r2, w2, (Some e, committed w) :: tr))
+    else (Some e, w1, [(Some e, committed w)]).
+Proof. exact @gen_execute_many_fault_first. Qed.
+Print Assumptions C27_execute_many_fault_anywhere.
+
+(** ... and a transient error anywhere followed by a fault-free attempt: two attempts, every row committed exactly once. *)
+Theorem C27_execute_many_retried_exactly_once :
+  forall (W : Type) (rows : list W) (f : faults) (w : @world W) (e : err),
+  clean_pool w -> fault_site (length rows) f e -> transient_spec e = true ->
+  exists w2, clean_pool w2 /\ committed w2 = committed w ++ rows /\
+    gen_helper_run (HExecuteMany rows) [f] w = (None, w2, [(Some e, committed w); (None, committed w ++ rows)]).
+Proof. exact @gen_execute_many_retried_once. Qed.
+Print Assumptions C27_execute_many_retried_exactly_once.
+
+(** aiomysql's bulk INSERT path: however the argument array is cut into multi-row wire statements (a statement's effect
+    is its list of rows, a fault hits a whole statement), the table gains ALL rows once or nothing. *)
+Theorem C27_execute_many_bulk_statements :
+  forall (W : Type) (chunks : list (list W)) (hist : list faults) (w : @world (list W)),
+  clean_pool w ->
+  let '(r, w', _) := gen_helper_run (HExecuteMany chunks) hist w in
+  clean_pool w' /\
+  concat (committed w') = concat (committed w) ++ match r with None => concat chunks | Some _ => [] end.
+Proof. exact @gen_execute_many_chunked. Qed.
+Print Assumptions C27_execute_many_bulk_statements.
+
+(** An attempt fails exactly when a fault fires: with no fault site the attempt commits. *)
+Theorem C27_attempt_fails_iff_fault :
+  forall (W : Type) (stmts : list W) (f : faults) (w : @world W),
+  clean_pool w ->
+  (forall e, fault_site (length stmts) f e -> fst (gen_attempt stmts f w) = Some e) /\
+  ((forall e, ~ fault_site (length stmts) f e) -> fst (gen_attempt stmts f w) = None).
+Proof. exact @gen_attempt_fails_iff_fault. Qed.
+Print Assumptions C27_attempt_fails_iff_fault.
